@@ -297,6 +297,9 @@ def v_inmemory(p):
     ctx.oblige('mem.slice.fields', okf)
     if not okf:
       return
+    ctx.oblige('mem.ids.sorted', idl.is_list and idl.is_sorted,
+               detail='class invariant established by the constructor: _client_ids is the SORTED list of the mapping keys '
+                      '(a derived view hands the constructor a dict built from a set: only sorting makes iteration deterministic)')
     want = z3.And(z3.Select(K, x), inr(st, sp, x))
     ctx.oblige('mem.slice', z3.And(z3.Select(m.keys, x) == want, idl.has(x) == want),
                detail='kept ids = { i in ids | start <= i < stop }')
@@ -346,6 +349,22 @@ def v_inmemory(p):
     kind, r = eng.run_function(ctx, methods['num_clients'], [selfr])
     ctx.oblige('mem.num', kind == 'return' and to_z3(r).eq(CARD(K)))
   p.verify('InMemoryFederatedData.num_clients', eng, body_num)
+
+  # iteration paths enumerate the (sorted) _client_ids list itself: with mem.ids.sorted the order is deterministic
+  import ast as _ast
+  for meth, pat in (('clients', 'self.get_clients(self._client_ids)'), ('client_sizes', 'self._client_ids'),
+                    ('client_ids', 'sorted(self._client_ids)')):
+    exm = p.extract(IM, f'InMemoryFederatedData.{meth}')
+    srcs = []
+    for n_ in _ast.walk(exm.node):
+      if isinstance(n_, _ast.For):
+        srcs.append(_ast.unparse(n_.iter))
+      elif isinstance(n_, _ast.YieldFrom):
+        srcs.append(_ast.unparse(n_.value))
+      elif isinstance(n_, _ast.Return) and n_.value is not None:
+        srcs.append(_ast.unparse(n_.value))
+    p.oblige(f'mem.iter.order:{meth}', [], z3.BoolVal(any(pat in s_ for s_ in srcs)), kind='post', fn=f'InMemoryFederatedData.{meth}',
+             detail=f'{meth}() enumerates {pat} (found: {srcs})')
 
 
 def build(p):
